@@ -343,6 +343,17 @@ class RaisingOperand:
     __add__ = __mul__ = __truediv__ = __pow__ = __mod__ = _op
 
 
+class RaisingCmp:
+    """a target whose comparisons raise the injected exception (an M comparison calls them: whatever they raise is theirs)"""
+    def __init__(self, inj):
+        self._inj = inj
+
+    def _cmp(self, other):
+        self._inj.hit('target.__gt__')
+        return True
+    __gt__ = __lt__ = __ge__ = __le__ = _cmp
+
+
 class RaisingIter:
     def __init__(self, inj, when):
         self.inj, self.when = inj, when
@@ -398,6 +409,8 @@ def skeletons():
         dict.__setitem__(d, 'kids', [])
         return {'a': 0, 'kids': [{'a': 0, 'kids': [d]}]}
     sk('ref-recursion-getitem', 'PAE', lambda inj: (deep_raising(inj), Ref('r', {'v': 'a', 'k': ('kids', [Ref('r')])}), glom))
+    sk('m-comparison-operand', 'pass', lambda inj: (RaisingCmp(inj), M > 0, glom))
+    sk('m-comparison-in-match-dict', 'pass', lambda inj: ({'k': RaisingCmp(inj)}, Match({'k': M > 0}), glom))
     sk('coalesce-skip-predicate', 'coalesce-skip', lambda inj: ({'a': 1}, Coalesce('a', 'a', skip=Fn(inj, 'skip', lambda v: False)), glom))
     sk('coalesce-default-factory', 'pass', lambda inj: ({'a': 1}, Coalesce('zz', default_factory=Fn(inj, 'factory', lambda: 0)), glom))
     sk('check-validator', 'Check', lambda inj: (3, Check(validate=Fn(inj, 'validator', lambda v: True)), glom))
